@@ -111,6 +111,59 @@ def run(ctx, prog, S, M, T, hints):
     ctx.count("functions_with_raise", nfun)
     ctx.count("raise_sites", nraise)
 
+    # -- R3.5c -------------------------------------------------------------------------------------
+    ctx.rule("R3.5c", "a value is not handed to a refusing setter / method of another object after the document was already changed for it")
+
+    def refuses(g):
+        """parameters of g that g refuses (ValueError / TypeError) in a guard at the top of its body, before it changes anything"""
+        out = set()
+        ps = set(g.params[1:] if (g.cls is not None and g.kind != "staticmethod") else g.params)
+        for st in g.node.body:
+            if isinstance(st, ast.Expr) and isinstance(st.value, ast.Constant):
+                continue
+            if isinstance(st, ast.If) and any(isinstance(x, ast.Raise) for x in st.body) and not st.orelse:
+                exc = [x for x in st.body if isinstance(x, ast.Raise)][0].exc
+                en = dotted(exc.func) if isinstance(exc, ast.Call) else dotted(exc) if exc is not None else None
+                if en in ("ValueError", "TypeError"):
+                    out |= {x.id for x in ast.walk(st.test) if isinstance(x, ast.Name) and x.id in ps}
+                continue
+            break
+        return out
+
+    nhand = 0
+    for f in E.funcs:
+        if f.module.name == "pptx.oxml.xmlchemy" or not f.module.name.startswith("pptx.") or f.module.name.startswith("pptx.oxml"):
+            continue
+        fparams = set(f.params)
+        fc = FCtx(f)
+
+        def handoff(st, f=f, fc=fc, fparams=fparams):
+            # `obj.prop = <parameter of f>` through a hand-written setter that refuses its value
+            if isinstance(st, ast.Assign) and len(st.targets) == 1 and isinstance(st.targets[0], ast.Attribute) \
+                    and isinstance(st.value, ast.Name) and st.value.id in fparams:
+                t = st.targets[0]
+                for a in T.expr(t.value, fc):
+                    if a[0] == "inst" and not M.is_oxml_class(a[1]):
+                        g = prog.lookup_setter(a[1], t.attr)
+                        if g is not None and g is not f and g.params[1:] and g.params[1] in refuses(g):
+                            return g
+            return None
+
+        hits = E.effects_before_raise(f, relevant_only=True, refusal_pred=lambda st: handoff(st) is not None)
+        for st, effs in hits:
+            if isinstance(st, ast.Raise):
+                continue
+            g = handoff(st)
+            if g is None:
+                continue
+            nhand += 1
+            st0, lvl, w = effs[0]
+            what = w.what if w.callee is None else "call of %s" % w.callee.qualname
+            ctx.violation("R3.5c", "%s->%s" % (f.qualname, g.qualname), "the document is changed first (%s, line %d) and the value is then handed to %s, "
+                          "which refuses what it does not accept (ValueError / TypeError): a rejected assignment leaves the change behind" % (
+                              what, st0.lineno, g.qualname), file=f.file, line=st.lineno)
+    ctx.ok("R3.5c", "hand-offs after a change", sample={"found": nhand})
+
     # -- R3.5b -------------------------------------------------------------------------------------
     ctx.rule("R3.5b", "an element that is invalid as created (required attribute / child missing) is completed in the "
                       "function that attaches it, and is not attached before a completing operation that can reject its value")
